@@ -97,7 +97,7 @@ def main():
             "guard": "verif",
             "enable": "go build -tags verif (run.sh builds /verif/mc with -tags verif against /repo via a replace directive)",
             "baseline_off_cmd": "cd /repo && GOFLAGS=-mod=mod GOPROXY=off GOSUMDB=off GOTOOLCHAIN=local go test -json -vet=off -count=1 -timeout 25m ./...",
-            "source_commits": ["5b99b2c"],
+            "source_commits": ["5b99b2c", "f8abbcd"],
             "add_only": True,
         },
         "engines": [
